@@ -165,6 +165,34 @@ func runSpace(r *core.Run, s *e1Space) {
 	})
 }
 
+// e1EveryEntry is an Extra oracle: after the entry, every other file of the program is executed as an entry of
+// its own on the same Set (then the entry once more), each against the reference's answer for that entry. What
+// loading one template does to the templates it pulls in (their block tables, the cache) shows up here.
+func e1EveryEntry(p *rj.Program, ref rj.Result, got rj.ImplResult) string {
+	if got.Again == nil {
+		return ""
+	}
+	entries := []string{}
+	for _, f := range p.Files {
+		if f.Name != p.Entry {
+			entries = append(entries, f.Name)
+		}
+	}
+	entries = append(entries, p.Entry)
+	for _, e := range entries {
+		q := *p
+		q.Entry = e
+		r2 := rj.Eval(&q)
+		if r2.Unspec != "" {
+			continue
+		}
+		if why := rj.Compare(r2, got.Again(e)); why != "" {
+			return fmt.Sprintf("after executing %s, on the same Set, executing %s: %s", p.Entry, e, why)
+		}
+	}
+	return ""
+}
+
 func p1(src map[string]string, entry string) string {
 	s := src[entry]
 	if len(s) > 160 {
